@@ -44,7 +44,8 @@ def main():
     tables = gen_tables.write_all()
 
     # 2. build the development
-    all_ok, log = common.coq_build()
+    wanted = [mod.PROPS_FILE, "theories/CaseLib.v"] + list(getattr(mod, "MODEL_FILES", []))
+    all_ok, log = common.coq_build(targets=wanted)
     proof_ok = common.vo_fresh(mod.PROPS_FILE)      # this property's theorems and their closure
     build_note = ""
     if not proof_ok:
